@@ -939,6 +939,23 @@ def adversarial_variants(src, text_by_backend):
     return src + extra if extra else None
 
 
+def adversarial_label_clash(src, text_by_backend):
+    """a clause label is `<Type>_<n>_<Xtor>` and a table label `<Type'>_<m>`: rename a constructor of the first matched type to
+    `Q_<m>` and the second matched type to `<Type>_<n>_Q` (renaming shifts no counter), so that both labels read
+    `<Type>_<n>_Q_<m>` unless the compiler keeps them apart"""
+    import re
+    mono = set(re.findall(r"^data ([A-Z]\w*) \{", src, re.M))
+    t = text_by_backend.get("x86") or next(iter(text_by_backend.values()), "")
+    tabs = [(m.group(1), int(m.group(2))) for m in re.finditer(r"^([A-Z]\w*?)_(\d+):", t, re.M) if m.group(1) in mono]
+    for (x, n) in tabs:
+        cl = re.findall(r"^%s_%d_([A-Z]\w*):" % (re.escape(x), n), t, re.M)
+        for (y, m_) in tabs:
+            if y != x and m_ > n and cl and ("Q_%d" % m_) not in src and ("%s_%d_Q" % (x, n)) not in src:
+                out = re.sub(r"\b%s\b" % re.escape(cl[0]), "Q_%d" % m_, src)
+                return re.sub(r"\b%s\b" % re.escape(y), "%s_%d_Q" % (x, n), out)
+    return None
+
+
 def adversarial_renames(src, text_by_backend, limit=3):
     """variants in which one helper definition of the user is *renamed* to exactly the name of a definition the compiler
     generated (shared continuation, lifted statement): renaming changes no identifier numbering, so the compiler generates the
@@ -985,6 +1002,27 @@ def check_C14(tier):
         for j, v2 in enumerate(adversarial_renames(src, texts)):
             adv.append({"name": "%s_ren%d" % (n, j), "kind": "fun", "src": v2})
             meta["%s_ren%d" % (n, j)] = {"src": v2, "origin": "adversarial-rename"}
+    # type-label / clause-label clash: label numbers depend on everything the process compiled before, so the base program is
+    # compiled alone in a fresh process, the clash is constructed from the labels seen there, and the variant is compiled alone too
+    tclash_arts = []
+    ntc = 0
+    for n, e in list(index.items()):
+        src = meta.get(n, {}).get("src")
+        if not src or ntc >= T(tier, 12, 120) or len(re.findall(r"^data [A-Z]\w* \{", src, re.M)) < 2 or not any(s_["stage"] == "x86" and s_["outcome"] == "ok" for s_ in e["stages"]):
+            continue
+        d1 = os.path.join(work, "tclash", n)
+        os.makedirs(d1, exist_ok=True)
+        json.dump([{"name": "b", "kind": "fun", "src": src}], open(os.path.join(d1, "base.json"), "w"))
+        sccv("pipeline", os.path.join(d1, "base.json"), os.path.join(d1, "base"), "x86")
+        bp = os.path.join(d1, "base", "b.x86.asm")
+        v3 = adversarial_label_clash(src, {"x86": open(bp).read()}) if os.path.exists(bp) else None
+        if not v3:
+            continue
+        ntc += 1
+        json.dump([{"name": n + "_tclash", "kind": "fun", "src": v3}], open(os.path.join(d1, "var.json"), "w"))
+        sccv("pipeline", os.path.join(d1, "var.json"), os.path.join(d1, "var"), "x86,a64,rv64")
+        tclash_arts.append(os.path.join(d1, "var"))
+        meta[n + "_tclash"] = {"src": v3, "origin": "adversarial-label-clash"}
     r = rng_for("C14")
     directed = GL.fam_literals(r, 12 * k) + GL.fam_ops(r, 40 * k) + GL.fam_ifc(r, 40 * k)
     lst = adv + [{"name": nm, "kind": "axcut", "prog": p, "linear": True} for nm, p, a in directed]
@@ -997,7 +1035,8 @@ def check_C14(tier):
     cfgs = {be: json.load(open(os.path.join(art, be + ".config.json"))) for be in ("x86", "a64", "rv64")}
     files, texts = [], {}
     stats = collections.Counter()
-    for a_, idx in ((art, index), (art2, index2)):
+    tcl = [(a_, {c["name"]: c for c in json.load(open(os.path.join(a_, "index.json")))}) for a_ in tclash_arts]
+    for a_, idx in [(art, index), (art2, index2)] + tcl:
         for n in idx:
             for be in ("x86", "a64", "rv64"):
                 p = os.path.join(a_, "%s.%s.asm" % (n, be))
@@ -1019,8 +1058,10 @@ def check_C14(tier):
         if x["status"] == "fail":
             rp = save_replay("C14", x["case"], {"file": x["case"], "why": x["why"], "tag": x["tag"], "asm": texts[x["case"]],
                                                 "source": meta.get(x["case"].split(":")[0], {}).get("src")})
-            viols.append({"signature": "C14:%s:%s:%s" % (x["backend"], x["tag"], lockstep.normalize_why(x["why"])), "replay": rp,
-                          "what": "%s: %s" % (x["case"], x["why"])})
+            sig = "C14:%s:%s:%s" % (x["backend"], x["tag"], lockstep.normalize_why(x["why"]))
+            if x["case"].split(":")[0].endswith("_tclash") and "defined more than once" in x["why"]:
+                sig = "C14:%s:tclash:type-label-and-clause-label-coincide" % x["backend"]
+            viols.append({"signature": sig, "replay": rp, "what": "%s: %s" % (x["case"], x["why"])})
     # ground truth for x86-64: GNU as must accept every file, and must agree with the specification's verdict
     nat = native.Native(work)
     x86files = [f for f in files if f["backend"] == "x86"]
